@@ -183,6 +183,7 @@ type sx struct {
 	rlog      []readEvent
 	facts     []loopFact
 	bind      map[string]int64
+	retInLoop bool // the last Return executed was inside the loop being summarised
 }
 
 type readEvent struct {
@@ -194,6 +195,7 @@ type readEvent struct {
 }
 
 type loopFact struct {
+	earlySuccess bool // the first iteration can leave the function with a nil error
 	fn     string
 	pos    string
 	deltas map[string]Lin // iteration atom -> advance per iteration
@@ -741,6 +743,7 @@ func (s *sx) runFrom(f *frame, b, prev *ssa.BasicBlock, stopAt *loopInfo) ([]SV,
 				}
 				// (a return inside a summarised loop body ends the function in the first iteration:
 				// exact under the uniform-class reading of per-element assumptions)
+				s.retInLoop = stopAt != nil && returnsFromInside(stopAt, b)
 				return rs, true
 			case *ssa.Panic:
 				panic(errorRun{})
@@ -1053,6 +1056,9 @@ func (s *sx) summarise(f *frame, li *loopInfo, prev *ssa.BasicBlock) (*ssa.Basic
 	}
 	if bodyReturned {
 		// the first iteration leaves the function
+		if n := len(bodyRet); s.retInLoop && n > 0 && bodyRet[n-1].K == kErr && bodyRet[n-1].Nil && len(s.facts) > 0 && s.facts[len(s.facts)-1].pos == lpos {
+			s.facts[len(s.facts)-1].earlySuccess = true
+		}
 		s.stream = append(s.stream, body...)
 		return nil, nil, bodyRet, true
 	}
@@ -1210,4 +1216,42 @@ func (p *Program) globalInit() map[string]SV {
 		}
 	}
 	return m
+}
+
+// returnsFromInside: block r (ending in a return) is reached from the loop body without passing
+// through the loop's normal exit (the out-of-loop successor of the header's test, which is also
+// where break statements go).
+func returnsFromInside(li *loopInfo, r *ssa.BasicBlock) bool {
+	if li.body[r] {
+		return true
+	}
+	h := li.header
+	var exit *ssa.BasicBlock
+	for _, s := range h.Succs {
+		if !li.body[s] {
+			exit = s
+		}
+	}
+	seen := map[*ssa.BasicBlock]bool{}
+	var stack []*ssa.BasicBlock
+	for b := range li.body {
+		for _, s := range b.Succs {
+			if !li.body[s] && s != exit {
+				stack = append(stack, s)
+			}
+		}
+	}
+	for len(stack) > 0 {
+		b := stack[len(stack)-1]
+		stack = stack[:len(stack)-1]
+		if seen[b] || b == exit {
+			continue
+		}
+		seen[b] = true
+		if b == r {
+			return true
+		}
+		stack = append(stack, b.Succs...)
+	}
+	return false
 }
